@@ -26,6 +26,16 @@ import srctie_specs              # noqa: E402
 STRS = ['a', 'b', 'key', 'x1', '0', '1', '2', '-1', '12']
 KINDS = [dict, list, tuple, set, frozenset]
 
+LOOP_DRIVER = r'''let visit : VisitFn Heap Obj Atom := fun s _p k v => match vk with
+      | 1 => .ok ((if v == Obj.atom (.int 1) then VisitRes.false_ else VisitRes.true_), s)
+      | 2 => .ok (VisitRes.true_, s)
+      | 3 => .ok ((match v with | .atom (.int i) => VisitRes.pair k (.atom (.int (i + 10))) | _ => VisitRes.true_), s)
+      | _ => (match v with | .atom .none => .error Exc.ValueError | _ => .ok (VisitRes.true_, s))
+    pure (match remap_loop 100000 h root visit (default_enter (gOps id)) (default_exit (gOps id)) (vk == 0) (rr != 0) Atom.none with
+      | .ok (v, s) => "('ok'," ++ shObj s v ++ ")"
+      | .error e => shExc e)'''
+NO_LOOP_DRIVER = 'pure "bad-no-loop"'
+
 DRIVER = r'''
 open C08 PyRtC08 Src.iterutils
 
@@ -95,11 +105,14 @@ def runLine : P String := do
     pure (match default_exit (gOps id) h p k old np items with
       | .ok (ret, s) => "('ok'," ++ pyBool (ret == np) ++ "," ++ shObj s ret ++ "," ++ shObj s np ++ ")"
       | .error e => shExc e)
-  | _ => do
+  | 3 => do
     let root ← pObj; let p ← pList pAtom; let d ← pOptObj
     pure (match get_path (gOps id) h root p d with
       | .ok (v, s) => "('ok'," ++ shObj s v ++ ")"
       | .error e => shExc e)
+  | _ => do
+    let root ← pObj; let vk ← pInt; let rr ← pInt
+    ⟪LOOP⟫
 
 partial def loop (inp : IO.FS.Stream) (out : IO.FS.Stream) : IO Unit := do
   let line ← inp.getLine
@@ -295,6 +308,26 @@ def make_case(fn, rng):
             ret = f(tuple(path), key, old, new_parent, list(items))
             return ('ok', None if empty_singleton(ret) else ret is new_parent, canon(ret), canon(new_parent))
         return toks, want
+    if fn == 4:       # the main loop of remap with the real default enter / exit and a family of visit callbacks
+        root = rng.choice(objs) if rng.random() < 0.9 else rng.choice([None, 3])
+        vk, rr = rng.choice([0, 0, 1, 2, 3, 4]), rng.randint(0, 1)
+        enc = Enc(objs)
+        enc.heap(toks)
+        enc.obj(root, toks)
+        toks.extend([vk, rr])
+
+        def visit4(p, k, v):
+            if v is None:
+                raise ValueError('none')
+            return True
+        visits = {1: lambda p, k, v: not (type(v) is int and v == 1), 2: lambda p, k, v: True,
+                  3: lambda p, k, v: (k, v + 10) if type(v) is int else True, 4: visit4}
+
+        def want(f):
+            if vk == 0:
+                return ('ok', canon(f(root, reraise_visit=bool(rr))))
+            return ('ok', canon(f(root, visit=visits[vk], reraise_visit=bool(rr))))
+        return toks, want
     # get_path: a walk from a root with mostly valid segments
     root = rng.choice(objs) if rng.random() < 0.85 else rng.choice([None, 3])     # strings are never indexed into
     segs, cur = [], root
@@ -379,7 +412,7 @@ def run(pids, quick=False, seed=0, verbose=True):
     for i in infos:
         if i.get('error'):
             raise common.InfraError('not translated: %s: %s' % (i['function'], i['error']))
-    order = ['default_visit', 'default_enter', 'default_exit', 'get_path']
+    order = ['default_visit', 'default_enter', 'default_exit', 'get_path', 'remap']
     fns = [sp for sp in specs if sp['qualname'] in order]
     rng = random.Random('py2lean-c08-selftest-%d' % seed)
     n_cases = 250 if quick else 3000
@@ -399,7 +432,8 @@ def run(pids, quick=False, seed=0, verbose=True):
             raise common.InfraError('cannot build BoltonsVerif.C08.SrcTieOps: ' + out[-500:])
         drv = os.path.join(tmp, 'C08SelfTest.lean')
         with open(drv, 'w') as fh:
-            fh.write('import BoltonsVerif.C08.SrcTieOps\n' + body + DRIVER)
+            has_loop = any(sp['qualname'] == 'remap' for sp in fns)
+            fh.write('import BoltonsVerif.C08.SrcTieOps\n' + body + DRIVER.replace('\u27eaLOOP\u27eb', LOOP_DRIVER if has_loop else NO_LOOP_DRIVER))
         t1 = time.time()
         p = subprocess.run(['lake', 'env', 'lean', '--run', drv], cwd=common.LEAN, input='\n'.join(lines) + '\n',
                            stdout=subprocess.PIPE, stderr=subprocess.STDOUT, text=True, timeout=1800)
